@@ -641,3 +641,109 @@ def confirm_move_then_remove(prop, v):
             if status == 'not_reproduced': status = 'unreachable'
         elif bad: status = 'reproduced'
     return status, detail
+
+
+# ---- C08 over three calls: remove_subtree(x); new_node(d); remove_subtree(y)
+
+def run_rs_alloc_rs_job(prog, job):
+    """x.remove_subtree(); z = new_node(d) (recycles a slot just freed); y.remove_subtree() for a node y that survived the first
+    call: exactly subtree(x) and then subtree(y) lose their payloads (each once), every other node - in particular the new node z -
+    stays live under its id with its payload (a link to a freed slot that the first call leaves behind leads the second removal
+    into the recycled slot)."""
+    import specs
+    t0 = time.time()
+    N = job['N']
+    prefixes = tuple(p + '.' for p in job['props'])
+    ctx = harness.Ctx(prog, 'remove_subtree', N, None, job.get('fix_x'))
+    eng = ctx.eng; A = ctx.A; pre = ctx.pre
+    res = new_result(job)
+    x = ctx.x
+    y = z3.BitVec('y2', 64); dnew = z3.BitVec('dnew', 8)
+    memx = specs.subtree_member(pre, x)
+    surv = [z3.And(A.live(i), z3.Not(memx[i])) for i in range(N)]
+    undery = [z3.And(surv[i], is_ancestor_or_self(pre, y, BV64(i + 1))) for i in range(N)]
+    eng.solver.add(ctx.x_live, z3.UGE(y, 1), z3.ULE(y, N), sel(surv, y))
+    for i in range(N): eng.solver.add(z3.Implies(A.live(i), A.data[i] != dnew))
+    if eng.solver.check() != z3.sat:
+        res['vacuous'] = True; return res
+    rsub = find_fn(prog, 'NodeId', 'remove_subtree'); new_node = find_fn(prog, 'Arena', 'new_node')
+    aref = Ref(ctx.acell, ())
+    id_y = mk_id(y, sel(A.stamp, y))
+    def mv(m, failed):
+        return {'kind': 'custom', 'module': 'multistep', 'confirm': 'confirm_rs_alloc_rs', 'checks': failed, 'op': 'remove_subtree', 'N': N, 'cfg': 'dev', 'role': 'remove_subtree_alloc_remove_subtree',
+                'pre': A.model_dict(m), 'args': dict(ctx.args_dict(m), y=m.eval(y, model_completion=True).as_long(), dnew=m.eval(dnew, model_completion=True).as_long())}
+    for o in ctx.explore():
+        res['paths'] += 1; res['steps'] += o.state.steps
+        if o.kind != 'return': continue                      # the single call is judged by the mutator jobs
+        s1 = o.state.copy(); s1.model = None
+        if not hasattr(s1, 'drops') or s1.drops is None: s1.drops = []
+        for o2 in call_all(eng, s1, new_node, [aref, Opq(dnew)]):
+            res['paths'] += 1; res['steps'] += o2.state.steps
+            if o2.kind != 'return': continue
+            zi, zs = zb(o2.value.f[0].f[0]), zb(o2.value.f[1].f[0])
+            for o3 in call_all(eng, o2.state.copy(), rsub, [id_y, aref]):
+                res['paths'] += 1; res['steps'] += o3.state.steps
+                if o3.kind != 'return':
+                    ob = [('%s.third_call_completes' % p_, F_) for p_ in job['props']]
+                else:
+                    V3 = View(o3.state.store[ctx.acell])
+                    ob = []
+                    livedata = [z3.If(A.live(i), z3.ZeroExt(8, A.data[i]), z3.BitVecVal(256 + i, 16)) for i in range(N)]
+                    distinct = z3.Distinct(*livedata) if N > 1 else T_
+                    for i in range(N):
+                        keep = z3.And(surv[i], z3.Not(undery[i]))
+                        ob.append(('C08.bystander_survives_two_subtree_removals[%d]' % (i + 1), z3.Implies(keep, z3.And(V3.live(i), V3.is_data[i], V3.data[i] == A.data[i], V3.stamp[i] == A.stamp[i]))))
+                        cnt = sum([z3.If(z3.And(zbool(c), e == A.data[i]), 1, 0) for (c, e) in o3.state.drops], z3.IntVal(0))
+                        ob.append(('C08.dropped_once_iff_in_a_removed_subtree[%d]' % (i + 1), z3.Implies(z3.And(distinct, A.live(i)), cnt == z3.If(z3.Or(memx[i], undery[i]), 1, 0))))
+                    zl = sel([V3.live(i) for i in range(V3.N)], zi); zd = sel([z3.And(V3.is_data[i], V3.data[i] == dnew) for i in range(V3.N)], zi)
+                    zst = sel(V3.stamp, zi)
+                    ob.append(('C08.recycled_node_survives_removal_of_another_subtree', z3.And(z3.UGE(zi, 1), z3.ULE(zi, V3.N), zl, zd, zst == zs)))
+                    cntz = sum([z3.If(z3.And(zbool(c), e == dnew), 1, 0) for (c, e) in o3.state.drops], z3.IntVal(0))
+                    ob.append(('C08.payload_of_live_new_node_not_dropped', cntz == 0))
+                    res['nontrivial'] += 1
+                check_obligations(eng, list(o3.state.pc), ob, prefixes, res, mv)
+    if eng.solver.check() == z3.sat:
+        m = eng.solver.model()
+        res['samples'].append({'harness': 'remove_subtree(x); new_node(d); remove_subtree(y)', 'N': N, 'args': dict(ctx.args_dict(m), y=m.eval(y, model_completion=True).as_long()), 'pre': A.model_dict(m)})
+    res['feas_queries'] = eng.nq; res['solver_time'] += eng.tq
+    res['wall'] = time.time() - t0
+    return res
+
+
+def confirm_rs_alloc_rs(prop, v):
+    import replay, json
+    pre = v['pre']; a = v['args']; N = len(pre['slots'])
+    slots = pre['slots']
+    def under(i, root):
+        c = i; k = 0
+        while c is not None and k <= N:
+            if c == root: return True
+            p = slots[c - 1]['parent']; c = p[0] if p else None; k += 1
+        return False
+    live = [i for i in range(1, N + 1) if slots[i - 1]['stamp'] >= 0]
+    gone = [i for i in live if under(i, a['x']) or under(i, a['y'])]
+    expected = sorted(slots[i - 1]['data'] for i in gone)
+    detail = {}; status = 'not_reproduced'
+    for profile in ('dev', 'release'):
+        lines = replay.construct_script(pre)
+        n0 = len(lines)
+        lines += ['remove_subtree s%d' % a['x'], 'new rnew %d' % a['dnew'], 'remove_subtree s%d' % a['y'], 'is_removed rnew', 'dump', 'drops']
+        res = replay.run_script(lines, profile)
+        r0 = res.get(n0 - 1)
+        try: got = replay.parse_dump(r0[1]) if r0 and r0[0] == 'OK' else None
+        except ValueError: got = None
+        ok = bool(got) and replay.same_state(got, pre)
+        bad = []
+        for k in (n0, n0 + 1, n0 + 2):
+            if res.get(k, ('MISSING', ''))[0] != 'OK': bad.append('%s: %s' % (lines[k], res.get(k)))
+        if not bad:
+            if res.get(n0 + 3, ('', ''))[1].strip() != 'false': bad.append('the node created between the two removals reports is_removed = %s' % (res.get(n0 + 3),))
+            try: dr = sorted(json.loads(res[n0 + 5][1]))
+            except Exception: dr = None
+            if dr != expected: bad.append('payloads dropped %s, expected exactly %s' % (dr, expected))
+        detail[profile] = {'pre_ok': ok, 'bad': bad[:6]}
+        detail.setdefault('script', lines)
+        if not ok:
+            if status == 'not_reproduced': status = 'unreachable'
+        elif bad: status = 'reproduced'
+    return status, detail
